@@ -192,6 +192,7 @@ pub fn c10() -> Check {
             Workload { name: "exh", f: exh_c10, quick: 1_024, thorough: 1_024, flav: Flav::Checked },
             Workload { name: "simmon", f: simmon_c10, quick: 3_000, thorough: 80_000, flav: Flav::Checked },
             Workload { name: "wrap", f: wrap_c10, quick: 480, thorough: 12_000, flav: Flav::Checked },
+            Workload { name: "tie", f: crate::checks::c10x::tie_case, quick: 20_000, thorough: 400_000, flav: Flav::Checked },
         ],
         exhaustive: false,
         aggregate: None,
